@@ -50,9 +50,8 @@ func manyImports(r *common.RNG, n int, style int) (string, []string) {
 			for j := 0; j < k && i < n; j++ {
 				b.WriteString("\t" + spec(i))
 				if r.Chance(1, 10) {
-					b.WriteString(" // c")
-				}
-				if r.Chance(1, 12) {
+					b.WriteString(" // c\n")
+				} else if r.Chance(1, 12) {
 					b.WriteString(";")
 				} else {
 					b.WriteString("\n")
